@@ -22,6 +22,7 @@ import (
 	abci "github.com/cometbft/cometbft/abci/types"
 	"github.com/cometbft/cometbft/libs/log"
 	tmos "github.com/cometbft/cometbft/libs/os"
+	tmproto "github.com/cometbft/cometbft/proto/tendermint/types"
 
 	"github.com/cosmos/cosmos-sdk/baseapp"
 	"github.com/cosmos/cosmos-sdk/client"
@@ -896,6 +897,15 @@ func NewHaqq(
 	if loadLatest {
 		if err := app.LoadLatestVersion(); err != nil {
 			tmos.Exit(err.Error())
+		}
+
+		// The capabilities live in a memory store that x/capability only rebuilds in its first BeginBlock.
+		// Rebuild it from the persisted owners as soon as the state is loaded, so that transactions that are
+		// checked or simulated before the first block of this process find the IBC ports and channels.
+		// NOTE: only with existing state: on a new chain InitGenesis sets the owners first and then
+		// initializes the memory store, which is a no-op once the store is marked as initialized.
+		if app.LastBlockHeight() > 0 {
+			app.CapabilityKeeper.InitMemStore(app.BaseApp.NewUncachedContext(true, tmproto.Header{}))
 		}
 	}
 
